@@ -27,6 +27,8 @@ def consts_for_tlc(c):
         InitTreat=Fn(c.get("treat", {9: 4, 10: 4, 11: 2})),
         InitErrDev=set(c.get("errdev", [0, 1, 2, 3, 11])),
         WLevels=set(c.get("wlevels", [])),
+        # harness/rec.go: writer id w is LevelSettable iff (w-1) % 4 in {2, 3}
+        WantsLevel=set(c.get("wants_level", [w for w in range(1, 33) if (w - 1) % 4 in (2, 3)])),
         Acts=set(c["acts"]),
     )
 
@@ -101,7 +103,7 @@ def mc_only(ctx, c, invariants, properties, name="core-mc-only", timeout=1500):
     """Exhaustive TLC run of a configuration too large to replay (no dump)."""
     tc = consts_for_tlc(c)
     mc, cfg = gen_mc("MCB", "LoggCore", tc,
-                     ["INIT Init", "NEXT Next", "INVARIANTS " + " ".join(invariants)] +
+                     ["INIT Init", "NEXT Next", "CHECK_DEADLOCK FALSE", "INVARIANTS " + " ".join(invariants)] +
                      (["PROPERTIES " + " ".join(properties)] if properties else []),
                      plain=dict(MaxLoggers=c["max_loggers"], InitLevel=c["init_level"], MaxList=c.get("max_list", 2)))
     return ctx.model_check("MCB", "MCB.cfg", files={"MCB.tla": mc, "MCB.cfg": cfg}, name=name, timeout=timeout)
@@ -112,7 +114,7 @@ def run_core(ctx, c, invariants, properties, obs, rand_count, rand_depth, rand_l
     tc = consts_for_tlc(c)
     # ---- 1. exhaustive model check with graph dump
     mc, cfg = gen_mc("MC", "LoggCore", tc,
-                     ["INIT Init", "NEXT Next", "ALIAS DumpAlias",
+                     ["INIT Init", "NEXT Next", "ALIAS DumpAlias", "CHECK_DEADLOCK FALSE",
                       "INVARIANTS " + " ".join(invariants)] +
                      (["PROPERTIES " + " ".join(properties)] if properties else []),
                      plain=dict(MaxLoggers=c["max_loggers"], InitLevel=c["init_level"], MaxList=c.get("max_list", 2)))
